@@ -102,6 +102,24 @@ class Unfolder:
 
 def _discharge(ob, timeout_ms, unfolder=None, lemmas=(), twin_lemmas=()):
     t0 = time.time()
+    if not ob.expect_sat:
+        # witness stage: existential hypotheses are skolemised and the universal conjuncts of the negated goal are instantiated at
+        # the skolem constants (sound: instances of a universally quantified assumption); decides goals of the form
+        # "exists k. P(k) or Q(k)" from a hypothesis "exists k. P(k)" whose index terms are not usable as triggers
+        try:
+            hyps, insts = _witness_instances(ob.pc, ob.goal)
+            if insts:
+                for mbqi in (False, True):
+                    st = z3.Solver()
+                    st.set("timeout", min(timeout_ms, 2000))
+                    st.set("smt.mbqi", mbqi)
+                    for p in hyps + insts:
+                        st.add(p)
+                    st.add(z3.Not(ob.goal))
+                    if st.check() == z3.unsat:
+                        return "proved", "z3(skolem witnesses)", (time.time() - t0) * 1000, None
+        except z3.Z3Exception:
+            pass
     if unfolder is not None and not ob.expect_sat:
         # a small portfolio: quantifier instantiation is order-sensitive, so an attempt that gives up quickly is
         # retried with other seeds / without MBQI (each attempt is sound on its own)
@@ -126,7 +144,7 @@ def _discharge(ob, timeout_ms, unfolder=None, lemmas=(), twin_lemmas=()):
             except z3.Z3Exception:
                 pass
     s = z3.Solver()
-    s.set("timeout", min(timeout_ms, 3000) if ob.expect_sat else timeout_ms)
+    s.set("timeout", min(timeout_ms, 700) if ob.expect_sat else timeout_ms)
     for p in ob.pc:
         s.add(p)
     if ob.expect_sat:
@@ -149,23 +167,6 @@ def _discharge(ob, timeout_ms, unfolder=None, lemmas=(), twin_lemmas=()):
         st.add(z3.Not(ob.goal))
         if st.check() == z3.unsat:
             return "proved", f"z3({stage} hypotheses)", (time.time() - t0) * 1000, None
-    # witness stage: existential hypotheses are skolemised and the universal conjuncts of the negated goal are instantiated at
-    # the skolem constants (sound: instances of a universally quantified assumption); decides goals of the form
-    # "exists k. P(k) or Q(k)" from a hypothesis "exists k. P(k)" whose index terms are not usable as triggers
-    try:
-        hyps, insts = _witness_instances(ob.pc, ob.goal)
-        if insts:
-            for mbqi in (False, True):
-                st = z3.Solver()
-                st.set("timeout", min(timeout_ms, 4000))
-                st.set("smt.mbqi", mbqi)
-                for p in hyps + insts:
-                    st.add(p)
-                st.add(z3.Not(ob.goal))
-                if st.check() == z3.unsat:
-                    return "proved", "z3(skolem witnesses)", (time.time() - t0) * 1000, None
-    except z3.Z3Exception:
-        pass
     # final stage: the full VC; e-matching only first (the VCs are written for triggers), then with MBQI
     s.set("smt.mbqi", False)
     s.add(z3.Not(ob.goal))
